@@ -68,7 +68,7 @@ class Pattern:
 SIGNATURES: dict[str, list[str]] = {}
 EXTERNAL_SIGNATURES = {
     "write_csv": [["file"]], "write_parquet": [["file"]], "read_csv": [["source"]], "read_parquet": [["source"]],
-    "as_euler": [["seq", "degrees"]],
+    "as_euler": [["seq", "degrees"]], "Series": [["name", "values"]],
 }
 
 
@@ -124,6 +124,19 @@ def _match_bound(p: ast.Call, n: ast.Call, sig, b, expanded, exp):
     return True
 
 
+def _equiv_norm(e: ast.expr) -> ast.expr:
+    """Spellings of one value that Python treats alike: dict(k=v) == {"k": v};  (a,) + x == (a, *x);  x + (a,) == (*x, a)."""
+    if isinstance(e, ast.Call) and isinstance(e.func, ast.Name) and e.func.id == "dict" and not e.args and e.keywords and all(k.arg is not None for k in e.keywords):
+        return ast.Dict(keys=[ast.Constant(value=k.arg) for k in e.keywords], values=[k.value for k in e.keywords])
+    if isinstance(e, ast.BinOp) and isinstance(e.op, ast.Add):
+        l, r = e.left, e.right
+        if isinstance(l, ast.Tuple) and not isinstance(r, (ast.Tuple, ast.Constant)) and not any(isinstance(x, ast.Starred) for x in l.elts):
+            return ast.Tuple(elts=list(l.elts) + [ast.Starred(value=r, ctx=ast.Load())], ctx=ast.Load())
+        if isinstance(r, ast.Tuple) and not isinstance(l, (ast.Tuple, ast.Constant)) and not any(isinstance(x, ast.Starred) for x in r.elts):
+            return ast.Tuple(elts=[ast.Starred(value=l, ctx=ast.Load())] + list(r.elts), ctx=ast.Load())
+    return e
+
+
 def _mv(n):
     if isinstance(n, ast.Name):
         if n.id.startswith("__MVE_") and n.id.endswith("__"):
@@ -143,6 +156,8 @@ def _any_body(body):
 
 def match(p, n, b: dict, expanded: bool = False, exp=None) -> bool:
     """Match pattern node p against node n, extending the bindings b (copy on the caller's side if you need backtracking)."""
+    if isinstance(p, ast.expr) and isinstance(n, ast.expr):
+        p, n = _equiv_norm(p), _equiv_norm(n)
     if isinstance(p, ast.AST):
         mv = _mv(p)
         if mv is not None:
